@@ -58,7 +58,7 @@ type senderModel struct {
 	lossOldest uint32
 	lostBase   uint64
 	fastBase   uint64
-	fastSince  bool // a fast/early retransmit happened since that loss
+	fastSince  bool   // a fast/early retransmit happened since that loss
 	prevCwnd   uint32 // congestion window after this endpoint's previous step
 }
 
@@ -76,11 +76,11 @@ func (m *senderModel) deliver(conv uint32, raw []byte) {
 }
 
 type c04Obs struct {
-	sm          [2]*senderModel
-	fullRcvQ    bool
-	fullSndWnd  bool
-	timeoutNC0  bool
-	knownCwnd   int
+	sm         [2]*senderModel
+	fullRcvQ   bool
+	fullSndWnd bool
+	timeoutNC0 bool
+	knownCwnd  int
 }
 
 // attachC04 wires the C04 oracles into a CoreSim.
